@@ -579,7 +579,7 @@ def run_lemmas(units, prop):
                 continue
             seen.add(lf)
             p = os.path.join(VERIF, lf)
-            for solver, cmd in (('z3', ['z3', '-T:120', p]), ('cvc5', ['cvc5', '--tlimit=120000', p])):
+            for solver, cmd in (('z3', ['z3', '-T:120', p]), ('cvc5', ['cvc5', '--incremental', '--tlimit=120000', p])):
                 rc, o, secs = run(cmd, timeout=150, mem=False)
                 answers = [l.strip() for l in o.split('\n') if l.strip() in ('sat', 'unsat', 'unknown')]
                 res = 'unsat' if answers and all(a == 'unsat' for a in answers) else ('sat' if 'sat' in answers else 'unknown')
